@@ -21,6 +21,9 @@ import (
 //	                                                        kind = list|missing|malformed ; <r> = version, e (error) or p (panic)
 //	sym <a> <b> | ok ab=<r> ba=<r>                          node A about a record advertising b, node B about a record advertising a
 //	frame <a> <b> <hex> | ok <hex> / err                    A.encodeUtpContent(for B) then B.decodeUtpContent(from A)
+//	hist <own> <steps> | ok r=<r>,<r>,.. own=<hex>,<hex>,..   a history of calls on ONE instance; steps = ';'-separated
+//	                                                        <peer index>:<kind>:<pv> (same index = same node object = same
+//	                                                        cache entry); r per step, own = the instance's list after each step
 //	live <a> <b> <n> | ok va=<r> vb=<r> offer=<..> find=<..>  two real instances over loopback UDP (offer A->B of n bytes, large find-content B<-A)
 func init() { registry["C19"] = runC19 }
 
@@ -161,6 +164,86 @@ func c19livePair(c *Ctx, a, b []byte, n int) {
 	c.Emit("live %s %s %d | ok va=%s vb=%s offer=%s find=%s", hx(a), hx(b), n, c19r(va, ea, false), c19r(vb, eb, false), offerRes, findRes)
 }
 
+type c19step struct {
+	peer int
+	kind string
+	pv   []byte
+}
+
+func c19stepsString(st []c19step) string {
+	p := make([]string, len(st))
+	for i, x := range st {
+		p[i] = fmt.Sprintf("%d:%s:%s", x.peer, x.kind, hx(x.pv))
+	}
+	return strings.Join(p, ";")
+}
+func c19parseSteps(s string) []c19step {
+	var out []c19step
+	for _, part := range strings.Split(s, ";") {
+		f := strings.Split(part, ":")
+		if len(f) != 3 {
+			continue
+		}
+		var idx int
+		fmt.Sscan(f[0], &idx)
+		out = append(out, c19step{idx, f[1], unhx(f[2])})
+	}
+	return out
+}
+
+// c19hist: one instance, a sequence of peers (a peer index names one node object for the whole history; its record is
+// fixed by the first step that mentions it).
+func c19hist(c *Ctx, own []byte, steps []c19step) {
+	// the probe's currentVersions IS this slice (the constructor converts, it does not copy): whatever a call does to the
+	// instance's own list is visible here
+	inst := append([]byte{}, own...)
+	p := portalwire.VerifONewVersionProbe(inst)
+	nodes := map[int]*enode.Node{}
+	rs := make([]string, len(steps))
+	owns := make([]string, len(steps))
+	for i, st := range steps {
+		n, ok := nodes[st.peer]
+		if !ok {
+			n = c19record(c19key(c), st.kind, st.pv)
+			nodes[st.peer] = n
+		}
+		rs[i] = c19get(p, n)
+		owns[i] = hx(inst)
+	}
+	c.Count("hist")
+	c.Count(fmt.Sprintf("hist_len_%d", len(steps)))
+	c.Emit("hist %s %s | ok r=%s own=%s", hx(own), c19stepsString(steps), strings.Join(rs, ","), strings.Join(owns, ","))
+}
+
+func c19randSteps(c *Ctx, n int) []c19step {
+	r := c.Rng
+	out := make([]c19step, 0, n)
+	first := map[int]c19step{}
+	for i := 0; i < n; i++ {
+		idx := r.Intn(n)
+		if st, ok := first[idx]; ok { // the same node again: same record
+			out = append(out, st)
+			continue
+		}
+		st := c19step{peer: idx}
+		switch r.Intn(6) {
+		case 0, 1:
+			st.kind = "missing"
+		case 2:
+			st.kind, st.pv = "malformed", []byte{0, 1}
+		default:
+			st.kind = "list"
+			st.pv = c19subset(1+r.Intn(15), []byte{1, 0, 2, 3})
+			if r.Intn(6) == 0 {
+				st.pv = []byte{byte(4 + r.Intn(4))}
+			}
+		}
+		first[idx] = st
+		out = append(out, st)
+	}
+	return out
+}
+
 func c19subset(mask int, base []byte) []byte {
 	out := []byte{}
 	for i, v := range base {
@@ -215,6 +298,8 @@ func c19replay(c *Ctx, lines []string) {
 			c19sym(c, ka, kb, unhx(f[1]), unhx(f[2]))
 		case "frame":
 			c19frame(c, ka, kb, unhx(f[1]), unhx(f[2]), unhx(f[3]))
+		case "hist":
+			c19hist(c, unhx(f[1]), c19parseSteps(f[2]))
 		case "live":
 			var n int
 			fmt.Sscan(f[3], &n)
@@ -259,12 +344,21 @@ func runC19(c *Ctx) {
 		c19fbs(c, nil, own)
 	}
 	c19fbs(c, nil, nil)
+	// histories on one instance, own lists in non-ascending order: no-pv peer, pv peer, another no-pv peer, ...
+	for _, own := range [][]byte{{1, 0}, {2, 0, 1}, {0, 1}, {1}, {2, 1, 0}, {0, 2}} {
+		c19hist(c, own, []c19step{{0, "missing", nil}, {1, "list", []byte{0, 1}}, {2, "missing", nil}})
+		c19hist(c, own, []c19step{{0, "missing", nil}, {1, "list", []byte{1, 0, 2}}, {2, "missing", nil}, {1, "list", []byte{1, 0, 2}}, {3, "malformed", []byte{0}}, {4, "list", []byte{5}}, {5, "missing", nil}, {0, "missing", nil}})
+		c19hist(c, own, []c19step{{0, "list", []byte{9}}, {1, "missing", nil}, {0, "list", []byte{9}}, {2, "list", []byte{2, 0}}, {3, "missing", nil}})
+	}
 	for i := 0; i < n; i++ {
 		a, b := c19randlist(c), c19randlist(c)
 		if r.Intn(3) == 0 && len(a) > 0 && len(b) > 0 { // force a common element
 			b[r.Intn(len(b))] = a[r.Intn(len(a))]
 		}
-		switch r.Intn(6) {
+		switch r.Intn(7) {
+		case 6:
+			own := [][]byte{{1, 0}, {2, 0, 1}, {0, 1}, {2, 1, 0}, {3, 1}, {0}, {1, 0, 1}}[r.Intn(7)]
+			c19hist(c, own, c19randSteps(c, 2+r.Intn(7)))
 		case 0:
 			c19fbs(c, a, b)
 			c19fbs(c, b, a)
